@@ -325,7 +325,11 @@ def run(w: Workload):
     with multiprocessing.Pool(min(14, max(1, multiprocessing.cpu_count() - 2))) as pool:
         for out in pool.imap(_worker, chunks):
             records.extend(out)
-    records.sort(key=lambda r: (len(r[1]["rows"]), repr(r[1]["rows"])))
+    def _simple_first(r):     # stored (capped) failures: fewest rows, no Delay, Onset before Duration
+        rows = r[1]["rows"]
+        delayed = sum(1 for _, c in rows if (c[0] in ("on", "off") and c[2] is not None) or (c[0] == "dur" and c[3] is not None))
+        return (delayed, len(rows), sum(c[0] == "dur" for _, c in rows), repr(rows))
+    records.sort(key=_simple_first)
     for clause, inp, obs, exp in records:
         w.fail(clause, inp, observed=obs, expected=exp)
     w.part("contexts", cases=len(hist), bound="valid histories up to %d rows (see rule)" % (4 if w.quick else 5),
